@@ -1002,7 +1002,7 @@ def np_min(ctx, a, axis=None):
         raise Unsupported('min axis')
     it = list(_concrete_indices(a.shape)) if not any(S.is_z3(d) for d in a.shape) else None
     if it is None:
-        raise Unsupported('min over symbolic extent')
+        return _max_symbolic(ctx, a, 'min')
     if not it:
         raise Raised('ValueError', 'zero-size array to reduction operation')
     out = a.at(it[0])
@@ -1384,3 +1384,133 @@ def _max_symbolic(ctx, a, kind):
 @lib('method:scalar.astype')
 def _scalar_astype(ctx, v, dtype):
     return A.cast_scalar(v, A.dtype_from(ctx, dtype))
+
+
+# ----------------------------------------------------------------------------------------
+# random numbers (library contract): a Generator made by default_rng(seed) is a deterministic function of
+# the seed and of the sequence of calls made on it; the module-level functions use the hidden global state
+
+class PyGenerator:
+    def __init__(self, stream):
+        self.stream = stream        # Int term identifying the stream (the seed, or a fresh id for seed=None)
+        self.calls = 0
+
+
+_I, _Rr = z3.IntSort(), z3.RealSort()
+RNG_INT = z3.Function('rng_int', _I, _I, _I, _I, _Rr, _I)          # stream, call, i, j, parameter -> integer draw
+RNG_REAL = z3.Function('rng_real', _I, _I, _I, _I, _Rr, _Rr, _Rr)  # stream, call, i, j, p1, p2 -> real draw
+
+
+@lib('numpy.random.default_rng', 'abstract')
+def np_default_rng(ctx, seed=None):
+    if seed is None:
+        stream = ctx.fresh_int('unseeded_stream')
+        ctx.events.append(('rng', 'unseeded generator'))
+    else:
+        seed = A.unwrap0(seed)
+        if not S.is_int(seed):
+            raise Unsupported('non-integer seed')
+        stream = seed
+    return PyGenerator(stream)
+
+
+def _draw_shape(ctx, size, *params):
+    if size is not None:
+        return shape_arg(ctx, size)
+    for p in params:
+        if isinstance(p, Arr):
+            return p.shape
+    return ()
+
+
+def _idx2(idx):
+    idx = list(idx) + [0, 0]
+    return S.z(idx[0]), S.z(idx[1])
+
+
+@lib('method:PyGenerator.poisson', 'abstract')
+def _rng_poisson(ctx, g, lam, size=None):
+    """Non-negative integer draws; ValueError when some rate is negative or too large (numpy's behaviour)."""
+    shape = _draw_shape(ctx, size, lam)
+    lam_a = arr(ctx, lam) if isinstance(lam, Arr) else None
+    if lam_a is not None and any(S.is_z3(d) for d in lam_a.shape):
+        q = [z3.Int(ctx._name('pq')) for _ in lam_a.shape]
+        rng_ = z3.And(*[z3.And(i >= 0, i < S.z(d)) for i, d in zip(q, lam_a.shape)])
+        v = S.zreal(lam_a.at(tuple(q)))
+        bad = z3.Exists(q, z3.And(rng_, z3.Or(v < 0, v > z3.RealVal('9223372006484771000'))))
+        name = z3.Bool(ctx._name('poisson_rejects'))
+        ctx.assume(name == bad, axiom=True)
+        if ctx.branch(name):
+            raise Raised('ValueError', 'lam < 0 or lam value too large')
+    call = g.calls
+    g.calls += 1
+    snap = lam_a.snapshot() if lam_a is not None else None
+
+    def fn(idx):
+        i, j = _idx2(idx)
+        p = S.zreal(snap.at(idx)) if snap is not None else S.zreal(lam)
+        d = RNG_INT(S.z(g.stream), S.z(call), i, j, p)
+        ctx.assume(d >= 0, 'lib[abstract]:poisson draws are non-negative integers')
+        return d
+    return Arr.from_fn(shape, 'int', fn)
+
+
+@lib('method:PyGenerator.normal', 'abstract')
+def _rng_normal(ctx, g, loc=0, scale=1, size=None):
+    shape = _draw_shape(ctx, size, loc, scale)
+    call = g.calls
+    g.calls += 1
+    la = loc.snapshot() if isinstance(loc, Arr) else None
+    sa = scale.snapshot() if isinstance(scale, Arr) else None
+
+    def fn(idx):
+        i, j = _idx2(idx)
+        l = la.at(idx) if la is not None else loc
+        s_ = sa.at(idx) if sa is not None else scale
+        return RNG_REAL(S.z(g.stream), S.z(call), i, j, S.zreal(l), S.zreal(s_))
+    return Arr.from_fn(shape, 'float', fn)
+
+
+@lib('method:PyGenerator.lognormal', 'abstract')
+def _rng_lognormal(ctx, g, mean=0, sigma=1, size=None):
+    shape = _draw_shape(ctx, size, mean, sigma)
+    call = g.calls
+    g.calls += 1
+
+    def fn(idx):
+        i, j = _idx2(idx)
+        d = RNG_REAL(S.z(g.stream), S.z(call), i, j, S.zreal(mean), S.zreal(sigma))
+        ctx.assume(d > 0, 'lib[abstract]:lognormal draws are positive')
+        return d
+    return Arr.from_fn(shape, 'float', fn)
+
+
+def _global_rng(name):
+    @lib('numpy.random.' + name, 'abstract')
+    def f(ctx, *a, **k):
+        ctx.events.append(('global-rng', 'numpy.random.' + name))
+        size = k.get('size')
+        if size is not None:
+            return A.fresh_array(ctx, 'global_rng', shape_arg(ctx, size), 'float')
+        return ctx.fresh_real('global_rng')
+    return f
+
+
+for _n in ('uniform', 'rand', 'normal', 'random', 'poisson', 'seed', 'randn'):
+    _global_rng(_n)
+
+
+@lib('numpy.linalg.lstsq', 'abstract')
+def np_lstsq(ctx, a, b, rcond=None):
+    """Abstract: some solution vector (its least-squares property is not used by the frame obligations)."""
+    a = arr(ctx, a)
+    x = A.fresh_array(ctx, 'lstsq_x', (a.shape[1],), 'float')
+    return (x, None, None, None)
+
+
+@lib('numpy.count_nonzero')
+def np_count_nonzero(ctx, a):
+    a = arr(ctx, a)
+    snap = a.snapshot()
+    cur = Arr.from_fn(a.shape, 'int', lambda idx: S.ite(S.truth(snap.at(idx)), 1, 0))
+    return np_sum(ctx, cur)
